@@ -411,3 +411,37 @@ def eval_match(m, v):
                 raise ValueError("guarded arm")
             return idx
     return None
+
+
+def walk_anc(n, anc=()):
+    """pre-order traversal yielding (node, ancestors tuple) ; ancestors are expression nodes and ('arm', match, idx)"""
+    if is_node(n):
+        yield n, anc
+        if n[0] == "match":
+            yield from walk_anc(n[2], anc + (n,))
+            for idx, a in enumerate(n[4]):
+                a_anc = anc + (n, ("arm", n, idx))
+                if a[1] is not None:
+                    yield from walk_anc(a[1], a_anc)
+                yield from walk_anc(a[2], a_anc)
+        else:
+            for c in children(n):
+                yield from walk_anc(c, anc + (n,))
+    elif isinstance(n, list):
+        for x in n:
+            yield from walk_anc(x, anc)
+
+
+def enclosing_arm(anc):
+    """innermost ('arm', match, idx) of a non-`?` match in an ancestor tuple"""
+    for a in reversed(anc):
+        if isinstance(a, tuple) and a and a[0] == "arm" and not a[1][5].startswith("TryDesugar"):
+            return a
+    return None
+
+
+def struct_field(n, name):
+    for f in n[4]:
+        if f[0] == name:
+            return f[1]
+    return None
